@@ -46,6 +46,8 @@ def run(rep, tier, seed, budget):
         x = dech.concrete_selfies(m, toks)
         leg = any(docs.is_legacy(model_value(m, t) if not isinstance(t, str) else t) for t in toks)
         col.count("with_legacy" if leg else "modern_only")
+        if r1[0] == "exc" and r2[0] == "exc":
+            col.count("both_sides_raise_non_DecoderError")
         col.nontrivial((r1[0], str(r1[1:])[:60], leg))
         if leg:
             col.sample({"x": x, "compatible_result": str(r1)[:80]})
@@ -100,6 +102,8 @@ def run(rep, tier, seed, budget):
             rep.parts.append({"name": name, "complete": False, "paths": 0, "bounds": bounds, "claim": "not started (time budget)"})
             continue
         res = driver.explore_parallel(fn, left * 0.6)
+        if res.col.counts.get("both_sides_raise_non_DecoderError", 0) > 0.5 * max(1, res.stats.paths):
+            res.col.error("vacuous differential: on most paths both decoder calls raise an exception other than DecoderError; the comparison says nothing")
         rep.add_part(name, res, bounds)
     rep.assumptions += ["default constraint table", "O-MODERN (vf/docs.py) transcribes CHANGELOG v2.0.0; [Expl/RingL] -> [//RingL] and [Expl\\RingL] -> [\\\\RingL] follow the library's table, the CHANGELOG does not list them",
                         "clause (iii) (DecoderError exactly when a legacy symbol is reached without the flag) is decided by C02's oracle, not here",
